@@ -2,9 +2,12 @@ import Uquic.Oracle.Frame
 import Uquic.Model.Crypto.Packet
 import Uquic.Model.Crypto.KeyPhase
 import Uquic.Spec.PktMon
+import Uquic.Spec.PNMon
+import Uquic.Model.Crypto.Prim
 
 open Uquic.Oracle Uquic.Model.Packet Uquic.Model.Bytes Uquic.Spec.PktMon
 open Uquic.Model.KeyPhase (KA Env Pkt Res)
+open Uquic.Model.Prim (InitialKeys initialKeys trafficKeys gcmSeal gcmOpen aesHPMask retryIntegrityTag)
 
 abbrev Fail := String × String × String
 
@@ -16,6 +19,9 @@ abbrev Table := List (String × Bytes × Bytes × Bytes × Bytes)
 def Table.find (t : Table) (key : String) (n a c : Bytes) : Option Bytes :=
   (List.find? (fun e => e.1 == key && e.2.1 == n && e.2.2.1 == a && e.2.2.2.1 == c) t).map (·.2.2.2.2)
 
+/-- the fixed write secret of endpoint `i` in the driver (`byte(29*i + 5*j + 7)`, 32 bytes) -/
+def harnessSecret (i : Nat) : Bytes := (List.range 32).map fun j => UInt8.ofNat (29 * i + 5 * j + 7)
+
 structure St where
   pk : List (Nat × Rec) := []
   table : Table := []
@@ -24,8 +30,19 @@ structure St where
   /-- key material currently installed (defaults = what the driver installs lazily) -/
   lkey : String := "L1:0102030405060708"
   skey : String := "S0:1"
+  /-- RFC-derived Initial keys (client, server) for the installed version / DCID -/
+  lk : InitialKeys × InitialKeys := initialKeys 1 [1, 2, 3, 4, 5, 6, 7, 8]
+  /-- RFC-derived 1-RTT generation-0 keys per sending endpoint, for TLS_AES_128_GCM_SHA256 only -/
+  sk : Option (InitialKeys × InitialKeys) := some (trafficKeys 1 (harnessSecret 0), trafficKeys 1 (harnessSecret 1))
+  /-- ghost: largest packet number the IMPLEMENTATION reported as opened, per endpoint opener -/
+  gHighL : List Int := [0, 0]
+  gHighS : List Int := [0, 0]
+  /-- ghost: a packet with invalid reserved bits was sealed (it advances the opener silently) -/
+  sawReserved : Bool := false
 
 def zeroIV : Bytes := List.replicate 12 0
+def fmtKeys (c s : InitialKeys) : String :=
+  s!"ok csec={toHex c.secret} ckey={toHex c.key} civ={toHex c.iv} chp={toHex c.hp} ssec={toHex s.secret} skey={toHex s.key} siv={toHex s.iv} shp={toHex s.hp}"
 def env : Env := { pto3 := 600000000, keyUpdateInterval := 2 ^ 40, firstKeyUpdateInterval := 100,
                    invalidPacketLimit := Uquic.Gen.Protocol.InvalidPacketLimitChaCha }
 
@@ -58,8 +75,13 @@ def fmtOpened (o : Opened) (kp : Option Nat) : String :=
   s!"ok hdr={hx o.hdr} pn={o.pn} pnlen={o.pnLen}" ++ (match kp with | some b => s!" kp={b}" | none => "") ++ s!" payload={hx o.payload}"
 
 /-- monitors of an open op on the implementation's output -/
-def openMons (r : Rec) (mu : String) (arg : Nat) (impl : String) : List Fail :=
+def openMons (r : Rec) (mu : String) (arg : Nat) (impl : String) (epoch : String) (gHigh : Int) (sawReserved : Bool) : List Fail :=
   let tamper := isTamper r.data mu arg
+  let pnLen := pnLenOf (r.hdr.headD 0)
+  -- a genuine packet, same keys, inside the decoding window of what the receiver reported so far, must open
+  let f0 : List Fail :=
+    if !tamper && !sawReserved && r.epoch == epoch && Uquic.Spec.PNMon.inWindow pnLen r.pn gHigh && !(words impl).contains "ok" then
+      [("protected_packet_opens", "-", s!"pn={r.pn} pnLen={pnLen} receiver highest={gHigh}: {impl}")] else []
   let ok := (words impl).contains "ok"
   let f1 : List Fail := if tamper && ok then
     [("tamper_rejected", "-", s!"{mu} {arg}: modified packet (or wrong keys) accepted: {impl}")] else []
@@ -67,7 +89,7 @@ def openMons (r : Rec) (mu : String) (arg : Nat) (impl : String) : List Fail :=
       (implBytes impl "hdr=" ≠ some r.hdr || implBytes impl "payload=" ≠ some r.payload ||
        (implField impl "pn=").map intOf ≠ some r.pn) then
     [("roundtrip_exact", "-", s!"sent hdr={hx r.hdr} pn={r.pn} payload={hx r.payload} got {impl}")] else []
-  f1 ++ f2
+  f0 ++ f1 ++ f2
 
 def step (s : St) (op impl : String) : St × StepOut :=
   let w := words op
@@ -76,9 +98,20 @@ def step (s : St) (op impl : String) : St × StepOut :=
   match w.headD "" with
   | "linit" =>
     -- derived secrets/keys are compared by the derivation check of the oracle build (see Oracle/Pkt.lean `deriv`)
-    ({ s with lHighest := [0, 0], lkey := s!"L{if arg 1 == 2 then 2 else 1}:{hx ((ofHex (sarg 2)).getD [])}" }, mk impl ["linit"])
+    let ver : Nat := if arg 1 == 2 then 2 else 1
+    let dcid := (ofHex (sarg 2)).getD []
+    let lk := initialKeys ver dcid
+    let model := fmtKeys lk.1 lk.2
+    let fails : List Fail := if impl ≠ model then
+      [("initial_keys_rfc", "-", s!"version {ver} dcid {hx dcid}: derived {impl}, RFC 9001 §5.2 / RFC 9369 §3.3 give {model}")] else []
+    ({ s with lHighest := [0, 0], gHighL := [0, 0], lkey := s!"L{ver}:{hx dcid}", lk := lk },
+      mk model ["linit", s!"linit:v{ver}", s!"linit:dcid{if dcid.length == 0 then "0" else if dcid.length < 8 then "<8" else if dcid.length ≤ 20 then "8-20" else ">20"}"] fails)
   | "sinit" =>
-    ({ s with ua := [{}, {}], skey := s!"S{(arg 1).toNat % 3}:{if arg 2 == 2 then 2 else 1}" }, mk "ok" ["sinit"])
+    let ver : Nat := if arg 2 == 2 then 2 else 1
+    let suite := (arg 1).toNat % 3
+    ({ s with ua := [{}, {}], gHighS := [0, 0], skey := s!"S{suite}:{ver}",
+              sk := if suite == 0 then some (trafficKeys ver (harnessSecret 0), trafficKeys ver (harnessSecret 1)) else none },
+      mk "ok" ["sinit", s!"sinit:suite{suite}", s!"sinit:v{ver}"])
   | "lseal" | "sseal" =>
     let long := w.headD "" == "lseal"
     let id := (arg 1).toNat; let dir := (arg 2).toNat % 2
@@ -88,8 +121,23 @@ def step (s : St) (op impl : String) : St × StepOut :=
     if pnLen < 1 || pnLen > 4 then (s, mk "skip") else
     -- witnesses from the implementation: header bytes, AEAD output, mask
     match implBytes impl "hdr=", implBytes impl "ct=" with
-    | some hdr, some ct =>
-      let mask := (implBytes impl "mask=").getD []
+    | some hdr, some implCt =>
+      let implMask := (implBytes impl "mask=").getD []
+      -- keys of the sending endpoint, derived from the RFCs (Initial: always; 1-RTT: AES-128-GCM suite only)
+      let keys : Option InitialKeys := if long then some (if dir == 0 then s.lk.1 else s.lk.2)
+        else s.sk.map (fun p => if dir == 0 then p.1 else p.2)
+      -- AEAD output and header-protection mask: predicted from the RFC derivations where possible,
+      -- otherwise (AES-256 / ChaCha20 suites) taken from the implementation as witnesses
+      let ct := match keys with
+        | some ks => gcmSeal ks.key (nonce ks.iv pn.toNat) hdr payload
+        | none => implCt
+      let maskOf (raw : Bytes) : Bytes := match keys with
+        | some ks => if raw.length ≥ hdr.length - pnLen + 20 then aesHPMask ks.hp (sample raw (hdr.length - pnLen)) else []
+        | none => implMask
+      let mask := maskOf (hdr ++ ct)
+      let rfcFails : List Fail :=
+        (if ct ≠ implCt then [("aead_matches_rfc", "-", s!"pn={pn}: sealed {hx implCt}, RFC key/iv/nonce give {hx ct}")] else []) ++
+        (if mask ≠ implMask then [("hp_mask_rfc", "-", s!"mask {hx implMask}, RFC hp key gives {hx mask}")] else [])
       let k : Keys := { aead := { enc := fun _ _ _ => ct, dec := fun _ _ _ => none }, iv := zeroIV, hp := maskFn mask, long := long }
       let key := (if long then s.lkey else s.skey) ++ s!":{dir}"
       -- the 1-RTT sealer counts the packet (Seal is called before the header protection can panic)
@@ -102,13 +150,15 @@ def step (s : St) (op impl : String) : St × StepOut :=
       | some pkt =>
         let implPkt := (implBytes impl "pkt=").getD []
         let rec_ : Rec := { long := long, dir := dir, pn := pn, cidLen := if long then 0 else ((ofHex (sarg 3)).getD []).length,
-                            hdr := hdr, payload := payload, data := implPkt }
+                            hdr := hdr, payload := payload, data := implPkt,
+                            epoch := if long then s.lkey else s.skey }
+        let s := { s with sawReserved := s.sawReserved || !reservedOK long (hdr.headD 0) }
         let s := { s with pk := (id, rec_) :: s.pk.filter (·.1 != id),
                           table := (key, nonce zeroIV pn.toNat, hdr, ct, payload) :: s.table }
         (s, mk s!"hdr={hx hdr} ct={hx ct} mask={hx mask} pkt={hx pkt}"
               [if long then "lseal" else "sseal", s!"seal:pnlen{pnLen}",
                if pnLen + payload.length == 4 then "seal:min-sample" else "seal:roomy"]
-              (sealMons long pnLen pn hdr payload implPkt))
+              (sealMons long pnLen pn hdr payload implPkt ++ rfcFails))
     | _, _ =>
       -- no witnesses: the implementation panicked. Predicted exactly when the sample does not exist.
       let s := if long then s else { s with ua := s.ua.set dir ((s.ua.getD dir {}).seal pn).1 }
@@ -120,7 +170,10 @@ def step (s : St) (op impl : String) : St × StepOut :=
     | some r =>
       if !r.long then (s, mk "skip") else
       let mut_ := sarg 2; let marg := (arg 3).toNat
-      let fails := openMons r mut_ marg impl
+      let gep := if mut_ == "own" then r.dir else 1 - r.dir
+      let fails := openMons r mut_ marg impl s.lkey (s.gHighL.getD gep 0) s.sawReserved
+      let s := if (words impl).contains "ok" then
+          { s with gHighL := s.gHighL.set gep (max (s.gHighL.getD gep 0) (((implField impl "pn=").map intOf).getD 0)) } else s
       let implHead := (words impl).headD ""
       if implHead == "E:hdrparse" || implHead == "E:retry" then
         -- wire.ParsePacket (not modelled here, see C08) rejected the mutated header: a rejection
@@ -131,10 +184,15 @@ def step (s : St) (op impl : String) : St × StepOut :=
         let plen := ((implField impl "plen=").map natOf).getD 0
         let data := data.take plen
         let ep := if mut_ == "own" then r.dir else 1 - r.dir
-        let key := s.lkey ++ s!":{1 - ep}"   -- the opener of endpoint `ep` holds the key of the direction towards it
-        let mask := (implBytes impl "mask=").getD []
-        let k : Keys := { aead := { enc := fun _ _ _ => [], dec := fun n a c => s.table.find key n a c },
-                          iv := zeroIV, hp := maskFn mask, long := true }
+        -- the opener of endpoint `ep` holds the RFC-derived keys of the direction towards it
+        let ks := if ep == 0 then s.lk.2 else s.lk.1
+        let implMask := (implBytes impl "mask=").getD []
+        let mask := if data.length ≥ off + 20 then aesHPMask ks.hp (sample data off) else []
+        let fails := fails ++ (if data.length ≥ off + 20 && mask ≠ implMask then
+          [("hp_mask_rfc", "-", s!"mask {hx implMask}, RFC hp key gives {hx mask}")] else [])
+        -- real AES-128-GCM with the RFC-derived key and IV (independent implementation, Uquic/Model/Crypto/Prim.lean)
+        let k : Keys := { aead := { enc := fun _ _ _ => [], dec := fun n a c => gcmOpen ks.key n a c },
+                          iv := ks.iv, hp := maskFn mask, long := true }
         let pre := s!"off={off} plen={plen} mask={if data.length ≥ off + 20 then hx mask else "-"} "
         match unprotectCore k data off (s.lHighest.getD ep 0) with
         | .error .tooSmall => (s, mk (pre ++ "E:small") ["lopen:small"] fails)
@@ -149,12 +207,20 @@ def step (s : St) (op impl : String) : St × StepOut :=
     | some r =>
       if r.long then (s, mk "skip") else
       let mut_ := sarg 2; let marg := (arg 3).toNat; let t := arg 4
-      let fails := openMons r mut_ marg impl
+      let gep := if mut_ == "own" then r.dir else 1 - r.dir
+      let fails := openMons r mut_ marg impl s.skey (s.gHighS.getD gep 0) s.sawReserved
+      let s := if (words impl).contains "ok" then
+          { s with gHighS := s.gHighS.set gep (max (s.gHighS.getD gep 0) (((implField impl "pn=").map intOf).getD 0)) } else s
       let data := mutate r.data mut_ marg
       let off := 1 + r.cidLen
       let ep := if mut_ == "own" then r.dir else 1 - r.dir
       let key := s.skey ++ s!":{1 - ep}"
-      let mask := (implBytes impl "mask=").getD []
+      let implMask := (implBytes impl "mask=").getD []
+      let mask := match s.sk with
+        | some p => if data.length ≥ off + 20 then aesHPMask (if ep == 0 then p.2 else p.1).hp (sample data off) else []
+        | none => implMask
+      let fails := fails ++ (if data.length ≥ off + 20 && mask ≠ implMask then
+        [("hp_mask_rfc", "-", s!"1-RTT mask {hx implMask}, RFC hp key gives {hx mask}")] else [])
       let pre := s!"mask={if data.length ≥ off + 20 then hx mask else "-"} "
       -- header removal and packet number decoding (the AEAD is consulted through the key-phase model below)
       let k0 : Keys := { aead := { enc := fun _ _ _ => [], dec := fun _ _ _ => some [] }, iv := zeroIV, hp := maskFn mask, long := false }
